@@ -90,8 +90,9 @@ def make_primitive(var):
     return obj
 
 
-def exercise(state, evt, role, artim_pre, var):
-    """Returns observation dict."""
+def exercise(state, evt, role, artim_pre, var, before=None):
+    """Returns observation dict.  before = (event, variant) of an UNDEFINED combination applied first: it has no
+    effect, so the cell exercised after it behaves as if it had never happened."""
     sim = simnet.Sim(role, [])
     with sim.patched():
         p = sim.build()
@@ -107,6 +108,14 @@ def exercise(state, evt, role, artim_pre, var):
         if artim_pre:
             p.timer.start()
         sim.now += 3.0
+        if before is not None:
+            p.primitive = make_primitive(before[1])
+            try:
+                sm.action(before[0] - 1)
+            except BaseException:     # noqa - judged by the enumeration of the undefined cell itself
+                pass
+            if sim.log or sm.current_state != state - 1 or (p.dul_socket is None) != (not has_transport):
+                return None           # (it did have an immediate effect: that is reported by the plain enumeration)
         p.primitive = make_primitive(var)
         exc = None
         try:
@@ -124,8 +133,10 @@ def exercise(state, evt, role, artim_pre, var):
         }
 
 
-def judge(state, evt, role, artim_pre, var, obs):
+def judge(state, evt, role, artim_pre, var, obs, before=None):
     case = {'state': state, 'event': evt, 'role': role, 'artim_pre': artim_pre, 'variant': var}
+    if before is not None:
+        case['before'] = [before[0], before[1]]
     cell = 'Sta%d/Evt%d' % (state, evt)
     ent = ulmodel.lookup(evt, state, role)
 
@@ -252,7 +263,7 @@ def run(ctx):
     ctx.rule = ('exhaustive product: 13 states x 19 events x {requestor, acceptor} x ARTIM {running, stopped} x '
                 'every primitive variant applicable to the event (received/user PDU of the kind of the event incl. '
                 'complete and partial P-DATA and both abort sources; stale slot contents for events without a '
-                'PDU); plus Hypothesis-drawn PDU contents for the PDU-carrying cells; non-trivial = defined cell, '
+                'PDU); every defined cell once more right after each undefined event of its state; plus Hypothesis-drawn PDU contents for the PDU-carrying cells; non-trivial = defined cell, '
                 'or undefined cell exercised with a live transport; distinct by (state, event, role, timer, slot)')
     ctx.assumptions = ['Table 9-10 and actions transcribed from PS3.8 (vf/ulmodel.py), 123 defined cells',
                        'AA-4 indication accepted as any abort indication object; AE-6 modelled as "acceptable"',
@@ -269,6 +280,29 @@ def run(ctx):
     ctx.extra['defined_cells_exercised'] = len(cells)
     if len(cells) != 123:
         raise HarnessError('only %d of 123 defined cells exercised' % len(cells))
+
+    # an undefined combination has no effect - not now, and not later: every defined cell of the state once more,
+    # right after each undefined event of that state
+    n_after = 0
+    for state in range(1, 14):
+        for role in ('requestor', 'acceptor'):
+            undefined = [e for e in range(1, 20) if ulmodel.lookup(e, state, role) is None and e not in (5, 17)]
+            defined = [e for e in range(1, 20) if ulmodel.lookup(e, state, role) is not None]
+            for e0 in undefined:
+                v0 = variants(e0, state)[0]
+                for evt in defined:
+                    for var in variants(evt, state)[:2]:
+                        obs = exercise(state, evt, role, False, var, before=(e0, v0))
+                        if obs is None:
+                            continue
+                        n_after += 1
+                        ctx.case((state, evt, role, var, 'after', e0), True, labels=['after-undefined', 'evt=%d' % evt],
+                                 sample={'state': state, 'undefined event first': e0, 'then event': evt, 'role': role})
+                        try:
+                            judge(state, evt, role, False, var, obs, before=(e0, v0))
+                        except Violation as v:
+                            ctx.fail(v.key + ':after-undefined', v.what + ' [right after the undefined Evt%d in the same state]' % e0, v.case)
+    ctx.extra['after_undefined_cases'] = n_after
 
     # generated contents for the cells whose action touches the PDU
     pdu_cells = [(s, e) for (e, s) in ulmodel.TABLE if e in EVENT_PDU or e in USER_PDU]
@@ -291,5 +325,9 @@ def run(ctx):
 
 def replay(case):
     warnings.simplefilter('ignore')
-    obs = exercise(case['state'], case['event'], case['role'], case['artim_pre'], case['variant'])
-    judge(case['state'], case['event'], case['role'], case['artim_pre'], case['variant'], obs)
+    before = tuple(case['before']) if case.get('before') else None
+    obs = exercise(case['state'], case['event'], case['role'], case['artim_pre'], case['variant'], before=before)
+    if obs is None:
+        print('the undefined event had an immediate effect (reported by the plain enumeration)')
+        return
+    judge(case['state'], case['event'], case['role'], case['artim_pre'], case['variant'], obs, before=before)
